@@ -215,6 +215,19 @@ def run(repo='/repo', tier='quick'):
         okrange = ('<', 'HTP_VALID_STATUS_MIN') in anc and ('>', 'HTP_VALID_STATUS_MAX') in anc
     mn = [l['v'] for bb, ii, s2 in f.stmts() for l in nodes(s2, lambda y: y.get('k') == 'lit' and y.get('name') == 'HTP_VALID_STATUS_MIN')]
     mx = [l['v'] for bb, ii, s2 in f.stmts() for l in nodes(s2, lambda y: y.get('k') == 'lit' and y.get('name') == 'HTP_VALID_STATUS_MAX')]
+    # ... and the status number is only replaced by INVALID because of the number itself: every path to that store passes a
+    # true test of the status number (== INVALID, < MIN, > MAX) - an invalid protocol token must not erase a valid status
+    for b, i, x in st_writes:
+        npth, badp = 0, None
+        for atoms, events, end, seq in P.enum_paths_seq(f, (f.entry, -1), stop=lambda bb, ii, st_, b=b, i=i: (bb, ii) == (b, i), max_paths=20000, must_reach=b):
+            if end[0] != 'stop':
+                continue
+            npth += 1
+            facts = [a for a, bb in atoms]
+            if not any(a[0] == 'tx->response_status_number' and ((a[1] == '==' and a[2] == 'HTP_STATUS_INVALID') or (a[1] == '<' and a[2] == 'HTP_VALID_STATUS_MIN') or (a[1] == '>' and a[2] == 'HTP_VALID_STATUS_MAX')) for a in facts):
+                badp = [a for a in facts if 'status' in a[0] or 'protocol' in a[0]][-3:]
+        res.check(badp is None and npth > 0, 'C17.b', 'status:invalid-only-for-the-number', 'all %d paths to the store pass a failed test of the status number' % npth,
+                  'response_status_number is overwritten with HTP_STATUS_INVALID on a path that tested something else (%s): a valid status code is erased (a 2xx answer to CONNECT is then handled as a refusal, a 101 does not switch to tunnel mode)' % (badp,), x['loc'])
     res.check(okrange and mn[:1] == [100] and mx[:1] == [999], 'C17.b', 'status:range-100-999', 'status is invalid iff < 100 or > 999', 'the status validity range is not 100..999 (min %s max %s)' % (mn[:1], mx[:1]), f.loc)
     # no narrowing before the range check: results of the 64-bit numeric parsers are received in 64-bit objects
     NUM = {n for n, g in db.fn.items() if g.ret in ('long', 'long long') and (n.startswith('htp_parse_') or n.startswith('bstr_util_mem_to_pint') or n.startswith('bstr_to_pint'))}
